@@ -28,6 +28,57 @@ from ..validator import SpecError, SpecValidator
 GEN_DIR = os.path.join(core.LEAN, "Gen")
 
 
+
+# two defects in one content expression (of `doc`, over doc / p[block] / text, br, img[inline] / fig[block]), in both orders:
+# the refusal is the one a left-to-right reading meets first
+ORDER_EXPRS = [
+    ("unknown<mixed", "nosuch text p"), ("mixed<unknown", "p text nosuch"), ("mixed<unknown:group", "block inline nosuch"),
+    ("unknown<syntax", "(p nosuch"), ("syntax<unknown", "p{2 nosuch"), ("syntax<unknown:trailing", "p) nosuch"),
+    ("unknown<syntax:close", "nosuch )"), ("mixed<syntax", "p text ("), ("syntax<mixed", "p{x} text"),
+    ("mixed<noToken", "p text |"), ("unknown<noToken", "nosuch |"), ("unknown<badInt", "nosuch p{1a}"),
+    ("badInt<unknown", "p{1a} nosuch"), ("unknown<noNumber", "p nosuch{"), ("noNumber<-", "p{2,"),
+    ("mixed<dead", "img p"), ("unknown<dead", "fig nosuch img"), ("syntax<dead", "(img"), ("mixed:in-group", "(p | inline)+"),
+    ("digit-word:unknown", "p 2p"), ("unknown:in-choice<mixed", "(p | nosuch) text"),
+]
+
+
+def _set(path, v):
+    def edit(sp):
+        d = sp
+        for k in path[:-1]:
+            d = d.setdefault(k, {})
+        d[path[-1]] = v
+    return edit
+
+
+def _both(*edits):
+    def edit(sp):
+        for e in edits:
+            e(sp)
+    return edit
+
+
+# defects in different places of the constructor: the order of `Schema.__init__`
+ORDER_SPECS = [
+    ("dead@1<unknown@5", _both(_set(("nodes", "p", "content"), "img"), _set(("nodes", "fig", "content"), "nosuch"))),
+    ("unknown@1<dead@5", _both(_set(("nodes", "p", "content"), "nosuch"), _set(("nodes", "fig", "content"), "img"))),
+    ("content<marks:same-round", _both(_set(("nodes", "doc", "content"), "nosuch"), _set(("nodes", "doc", "marks"), "nosuchmark"))),
+    ("dead<marks:same-round", _both(_set(("nodes", "fig", "content"), "img"), _set(("nodes", "fig", "marks"), "nosuchmark"))),
+    ("marks@1<content@5", _both(_set(("nodes", "p", "marks"), "nosuchmark"), _set(("nodes", "fig", "content"), "nosuch"))),
+    ("content@0<clash@5", _both(_set(("nodes", "doc", "content"), "nosuch"), _set(("marks", "fig"), {}))),
+    ("clash<content:same-round", _both(_set(("nodes", "doc", "content"), "nosuch"), _set(("marks", "doc"), {}))),
+    ("clash@1<dead@5", _both(_set(("marks", "p"), {}), _set(("nodes", "fig", "content"), "img"))),
+    ("dead@5<excludes", _both(_set(("nodes", "fig", "content"), "img"), _set(("marks", "em", "excludes"), "nosuchmark"))),
+    ("marks@5<excludes", _both(_set(("nodes", "fig", "marks"), "nosuchmark"), _set(("marks", "em", "excludes"), "nosuch2"))),
+    ("top<everything", _both(_set(("topNode",), "nosuch"), _set(("nodes", "doc", "content"), "(p"), _set(("marks", "doc"), {}))),
+    ("text-attrs<content", _both(_set(("nodes", "text", "attrs"), {"a": {"default": 1}}), _set(("nodes", "doc", "content"), "(p"))),
+    ("cache:same-bad-expr-twice", _both(_set(("nodes", "p", "content"), "img"), _set(("nodes", "fig", "content"), "img"))),
+    ("cache:ok-expr-then-dead", _both(_set(("nodes", "doc", "content"), "fig+"), _set(("nodes", "fig", "content"), "img+"))),
+    ("only-excludes", _set(("marks", "em", "excludes"), "nosuchmark")),
+    ("nothing-wrong", _both()),
+]
+
+
 def table_of(schema):
     out = []
     for name, t in schema.nodes.items():
@@ -253,7 +304,10 @@ def run(ctx):
         req, exp, kind = t
         ctx.count("build:" + tag + ":" + kind)
         for lb in labels:
-            ctx.count("build-corner:" + lb + ":" + ("ok" if kind == "ok" else "refused"))
+            if lb.startswith("order"):
+                ctx.count("build-" + lb + "=" + kind)     # which refusal came first (compared exactly below)
+            else:
+                ctx.count("build-corner:" + lb + ":" + ("ok" if kind == "ok" else "refused"))
         if kind == "ok" and any(len(n["dfa"]) >= 4 for n in exp["nodes"]):
             ctx.count("build:ok-with-4+state-automaton")
         breqs.append(req)
@@ -268,6 +322,34 @@ def run(ctx):
         if rng.random() < 0.5:
             mspec2, labels2 = schemas.mutate_spec(rng, mspec)
             tie_build(mspec2, None, "malformed+mutated", labels + labels2)
+    # ---- which refusal comes first when several apply (lean/Props/C06.lean: buildSchema_first_error, nodeStep_refusal,
+    #      buildSchema_refusal_kind): aimed specs with two or three defects at once — inside one expression in both
+    #      left-to-right orders, in different rounds of the node loop, before the loop and in the marks; the kind is
+    #      compared exactly as for every other spec
+    def order_base():
+        return {"nodes": {"doc": {"content": "p+"},
+                          "p": {"content": "inline*", "group": "block"},
+                          "text": {"group": "inline"},
+                          "br": {"inline": True, "group": "inline"},
+                          "img": {"inline": True, "group": "inline", "attrs": {"src": {}}},
+                          "fig": {"content": "br*", "group": "block"}},
+                "marks": {"em": {}}}
+
+    for label, e in ORDER_EXPRS:
+        sp = order_base()
+        sp["nodes"]["doc"]["content"] = e
+        tie_build(sp, None, "order", ("order:" + label,))
+        # the same with a dead end, an unknown mark and an unknown `excludes` further down: the parser on `doc` still speaks first
+        sp = order_base()
+        sp["nodes"]["doc"]["content"] = e
+        sp["nodes"]["doc"]["marks"] = "nosuchmark"
+        sp["nodes"]["fig"]["content"] = "img"
+        sp["marks"]["em"]["excludes"] = "nosuchmark"
+        tie_build(sp, None, "order", ("order+later:" + label,))
+    for label, edit in ORDER_SPECS:
+        sp = order_base()
+        edit(sp)
+        tie_build(sp, None, "order", ("order:" + label,))
     bouts = ctx.driver.run(breqs) if breqs else []
     for req, (replay, exp), out in zip(breqs, bmetas, bouts):
         ctx.count("build_requests")
